@@ -57,6 +57,12 @@ func (sv *service) serve(ctx context.Context, shape string, ss grpc.ServerStream
 	n := wire.RPCTag(wire.MD(md))
 	s.mu.Lock()
 	s.nInvoked++
+	if n == 0 && len(s.untagged) > 0 {
+		// an RPC the caller started without any metadata carries no tag:
+		// it is the oldest such RPC not yet matched
+		n = s.untagged[0]
+		s.untagged = s.untagged[1:]
+	}
 	if n == 0 {
 		n = 1000 + s.nInvoked
 	}
@@ -169,6 +175,9 @@ func (s *Session) handlerOp(r *rpcState, a *actor, st Step) {
 			err = r.hss.SendMsg(Msg(r.n, "s", idx, st.N))
 		} else {
 			err = fmt.Errorf("unary handler cannot send")
+		}
+		if err != nil {
+			s.markSendFailed(r.n, "s")
 		}
 		s.opRet(a, st, errFields(tr.E{"idx": idx}, err))
 	case "sethdr", "sendhdr":
